@@ -89,6 +89,7 @@ MonoVerdict(ev) ==
   ELSE IF \E i \in 1..(Len(ev.nfn) - 1) : ev.nfn[i] < ev.nfn[i + 1] THEN "fn-count-increased"
   ELSE IF \E i \in 1..(Len(ev.ap6) - 1) : ev.ap6[i] > ev.ap6[i + 1] + 1 THEN "ap-decreased"
   ELSE IF \E i \in 1..(Len(ev.aph6) - 1) : ev.aph6[i] > ev.aph6[i + 1] + 1 THEN "aph-decreased"
+  ELSE IF \E i \in 1..(Len(ev.map6) - 1) : ev.map6[i] > ev.map6[i + 1] + 1 THEN "map-decreased"
   ELSE IF \E i \in 1..Len(ev.subset) : ev.subset[i] # 1 THEN "tp-lost"
   ELSE "ok"
 
